@@ -97,6 +97,9 @@ def exc_in_library(exc: BaseException) -> bool:
         return False
     for fr in reversed(tb):
         fn = fr.filename.replace('\\', '/')
+        if fn.endswith(('/vf/loopback.py', '/vf/memhttp.py')) and (
+                type(exc).__module__.startswith('sdc11073') or isinstance(exc, OSError)):
+            continue  # the transport stand-ins raise, for the library, what the real transport raises there
         if '/vf/' in fn and ROOT in fn:
             return False
         if '/sdc11073/' in fn or '/tutorial/' in fn:
